@@ -156,7 +156,9 @@ def frame(ctx, rtype, rid, operand_words, pre=2):
 def norm_first(w):
     """('opassign','|', X, n) and ('or', X, n) -> ('or', X, n)"""
     if isinstance(w, tuple) and w[0] == "opassign" and w[1] == "|":
-        return ("or", w[2], w[3])
+        w = ("or", w[2], w[3])
+    if isinstance(w, tuple) and w[0] == "or" and w[2] == ("as", ("opcode",), "u32") and w[1] != ("as", ("opcode",), "u32"):
+        w = ("or", w[2], w[1])          # `|` commutes: the opcode operand first
     return w
 
 
